@@ -152,6 +152,23 @@ impl SimWallet {
         self.tdb.db_mut().truncate_to_height(BlockHeight::from_u32(h)).map(u32::from).map_err(|e| format!("{e:?}"))
     }
 
+    pub fn truncate_to_chain_state(&mut self, state: zcash_client_backend::data_api::chain::ChainState) -> Result<(), String> {
+        self.tdb.db_mut().truncate_to_chain_state(state).map_err(|e| format!("{e:?}"))
+    }
+
+    /// the highest checkpoint id in any of the three note commitment trees
+    pub fn max_checkpoint_height(&self) -> Option<u32> {
+        let conn = self.conn();
+        ["sapling", "orchard", "ironwood"]
+            .iter()
+            .filter_map(|t| conn.query_row(&format!("SELECT MAX(checkpoint_id) FROM {t}_tree_checkpoints"), [], |r| r.get::<_, Option<u32>>(0)).expect("checkpoint table"))
+            .max()
+    }
+
+    pub fn block_max_scanned(&self) -> Option<u32> {
+        self.tdb.db().block_max_scanned().expect("block_max_scanned").map(|m| u32::from(m.block_height()))
+    }
+
     pub fn chain_height(&self) -> Option<u32> {
         self.tdb.db().chain_height().expect("chain_height").map(u32::from)
     }
